@@ -233,7 +233,22 @@ def _py_sqrt(e):
     return math.sqrt(e)
 
 
-sqrt = _mk_unary("sqrt", lambda e: e.sqrt(), _py_sqrt)
+_sqrt_generic = _mk_unary("sqrt", lambda e: e.sqrt(), _py_sqrt)
+
+# Opt-in (set by a harness inside its worker process, e.g. C08/C12): np.sqrt(<plain Python/NumPy integer>) such as
+# the np.sqrt(3) of the Gauss loops returns the exact algebraic constant (s > 0, s*s = 3) instead of the float
+# 1.7320508075688772.  Default off: native scalars keep going to the real numpy.
+EXACT_SCALAR_SQRT = False
+
+
+def sqrt(x, *a, **k):
+    if EXACT_SCALAR_SQRT and not a and not k and isinstance(x, (int, _np.integer)) \
+            and not isinstance(x, (bool, _np.bool_)) and x >= 0 and _ctx.has_current():
+        from . import axioms
+        return axioms.sqrt(R.of(int(x)))
+    return _sqrt_generic(x, *a, **k)
+
+
 exp = _mk_unary("exp", lambda e: e.exp(), lambda e: math.exp(e))
 log = _mk_unary("log", lambda e: e.log(), lambda e: math.log(e))
 sin = _mk_unary("sin", lambda e: e.sin(), lambda e: math.sin(e))
@@ -343,6 +358,8 @@ def isnan(x):
 
 
 def _close_elem(a, b, rtol, atol):
+    if isinstance(rtol, R) and rtol.q == 0 and isinstance(atol, R) and atol.q == 0:
+        return a == b          # exact-arithmetic reading: a plain (polynomial) equality, no |.| terms
     d = a - b
     if isinstance(d, C) or isinstance(b, C):
         d, b = C.of(d), C.of(b)
@@ -804,52 +821,17 @@ def _norm(x, ord=None, axis=None, keepdims=False):
         if isinstance(e, complex):
             return e.real ** 2 + e.imag ** 2
         return e * e
+    from .scalars import NormVal
     s = _np.frompyfunc(sq, 1, 1)(a)
     tot = s.sum(axis=axis)
-    if axis is None and isinstance(tot, R) and tot.q is None and a.size:
-        return _NormR(tot, list(a.flat))      # SQRT term only built when the value itself is used
-    r = sqrt(tot)
-    return r
-
-
-class _NormR(R):
-    """Euclidean norm that remembers its entries: comparisons with the constant 0 are stated on the
-    entries (|x| == 0  <=>  every entry is 0) instead of on SQRT(sum of squares), which keeps the
-    zero-vector tests of the code under test linear.  Any arithmetic gives a plain R."""
-    __slots__ = ("elems", "_tot")
-
-    def __init__(self, tot, elems):
-        R.__init__(self, q=None, n=None, d=())
-        self.elems = elems
-        self._tot = tot
-
-    @property
-    def n(self):
-        if self._n is None:
-            self._n = sqrt(self._tot).n       # SQRT(sum of squares) with its ground axioms, on demand
-        return self._n
-
-    def _rel(self, o, op):
-        o2 = R.of(o)
-        if o2 is not None and o2.q is not None and o2.q == 0 and op in ("eq", "ne", "le", "gt"):
-            ts = []
-            kn = _ctx.current().known_nonzero if _ctx.has_current() else ()
-            for e in self.elems:
-                # an entry that is a symbol assumed non-zero (sym(..., nonzero/positive=True)) decides the test
-                for part in ((e.re, e.im) if isinstance(e, C) else (e,)):
-                    if isinstance(part, R) and part.q is None and not part.d and part.n.get_id() in kn:
-                        return op in ("ne", "gt")
-                z = (e == 0)
-                if isinstance(z, (bool, _np.bool_)):
-                    if not z:
-                        return op in ("ne", "gt")      # a concretely non-zero entry
-                    continue
-                ts.append(z.t)
-            if not ts:
-                return op in ("eq", "le")
-            allzero = z3.And(*ts) if len(ts) > 1 else ts[0]
-            return SB(allzero if op in ("eq", "le") else z3.Not(allzero))
-        return R._rel(self, o, op)
+    if isinstance(tot, _np.ndarray):
+        out = _np.empty(tot.shape, dtype=object)
+        a2 = _np.moveaxis(a, axis, 0) if isinstance(axis, int) else None
+        for i in _np.ndindex(*tot.shape):
+            elems = list(a2[(slice(None),) + i].flat) if a2 is not None else None
+            out[i] = NormVal.make(tot[i], elems)
+        return wrap(out)
+    return NormVal.make(tot, list(a.flat) if axis is None else None)
 
 
 from . import oracles as _oracles  # noqa: E402
